@@ -82,17 +82,18 @@ def analyse_cell(P, is_right, swap, reverse, vector):
     return rows
 
 
-def check(ctx):
-    P = ctx.project
+def check_link_cells(ctx, P, vectors, rule_of=None, floor_rule="R05.1"):
+    """Evaluate the link-kind cells for the given input kinds; rule_of maps C05 rule ids to the caller's."""
+    rule_of = rule_of or (lambda r: r)
     fi = P.func("padding:_pad_face_connections")
     n_cells = 0
     for is_right, swap, reverse in itertools.product([False, True], repeat=3):
-        for vector in (None, "parallel", "tangential"):
+        for vector in vectors:
             kind = f"{'right' if is_right else 'left'} side, {'swapped' if swap else 'same'} axis, {'reversed' if reverse else 'normal'}, {vector or 'scalar'}"
             try:
                 rows = analyse_cell(P, is_right, swap, reverse, vector)
             except Unmodelled as e:
-                ctx.unknown("R05.1", kind, str(e))
+                ctx.unknown(rule_of("R05.1"), kind, str(e))
                 continue
             n_cells += 1
             t, e_orth, e_tang, e_target = expected(is_right, swap, reverse)
@@ -105,16 +106,22 @@ def check(ctx):
                 try:
                     pr = _check_face0(chain, is_right, swap, reverse, vector, t, e_orth, e_tang, e_target)
                 except Unmodelled as e:
-                    ctx.unknown("R05.1", kind, str(e))
+                    ctx.unknown(rule_of("R05.1"), kind, str(e))
                     pr = {}
                 for k, v in pr.items():
                     problems.setdefault(k, v)
             if problems:
                 for rule, msg in sorted(problems.items()):
-                    ctx.report(rule, fi, f"link kind: {kind}", msg)
+                    ctx.report(rule_of(rule), fi, f"link kind: {kind}", msg)
             else:
-                ctx.ok("R05.1" if vector is None else "R05.5", f"link kind: {kind}", f"source {e_orth!r} along the link axis, along-edge {e_tang!r}, sign/partner as the orientation map demands")
-    ctx.floor("R05.1", "link-kind cells evaluated", n_cells, 24)
+                ctx.ok(rule_of("R05.1" if vector is None else "R05.5"), f"link kind: {kind}", f"source {e_orth!r} along the link axis, along-edge {e_tang!r}, sign/partner as the orientation map demands")
+    ctx.floor(rule_of(floor_rule), "link-kind cells evaluated", n_cells, 8 * len(vectors))
+
+
+def check(ctx):
+    P = ctx.project
+    fi = P.func("padding:_pad_face_connections")
+    check_link_cells(ctx, P, (None, "parallel", "tangential"))
     _check_prepad_and_trim(ctx, P, fi)
     _check_open_edges(ctx, P, fi)
 
@@ -189,7 +196,7 @@ def _check_face0(chain, is_right, swap, reverse, vector, t, e_orth, e_tang, e_ta
     return pr
 
 
-def _check_prepad_and_trim(ctx, P, fi):
+def _check_prepad_and_trim(ctx, P, fi, rule="R05.4"):
     """R05.4 with concrete requested widths: pre-pad = max width on every axis; trim leaves exactly the request."""
     cases = [
         {AX: (1, 2)},
@@ -203,7 +210,7 @@ def _check_prepad_and_trim(ctx, P, fi):
         try:
             outs = run(P, table, widths=widths)
         except Unmodelled as e:
-            ctx.unknown("R05.4", inst, str(e))
+            ctx.unknown(rule, inst, str(e))
             continue
         wmax = max(x for v in widths.values() for x in v)
         bad = None
@@ -235,7 +242,7 @@ def _check_prepad_and_trim(ctx, P, fi):
                             raise Unmodelled(f"trim indexer {d!r}: {s!r}")
                         sel[a] = sel[a].slice(s)
             except Unmodelled as ex:
-                ctx.unknown("R05.4", inst, str(ex))
+                ctx.unknown(rule, inst, str(ex))
                 continue
             for a in (AX, AY):
                 lo, hi = widths.get(a, (0, 0))
@@ -245,18 +252,18 @@ def _check_prepad_and_trim(ctx, P, fi):
             if len(faces) != 2 or facedim != FACE:
                 bad = bad or "faces are not re-assembled along the face dimension"
         if bad:
-            ctx.report("R05.4", fi, inst, bad)
+            ctx.report(rule, fi, inst, bad)
         else:
-            ctx.ok("R05.4", inst, f"pre-pad ({wmax}, {wmax}) on both axes with the rule in force; trim leaves the requested halo")
+            ctx.ok(rule, inst, f"pre-pad ({wmax}, {wmax}) on both axes with the rule in force; trim leaves the requested halo")
 
 
-def _check_open_edges(ctx, P, fi):
+def _check_open_edges(ctx, P, fi, rule="R05.6"):
     """R05.6: a face without any link keeps the basic pre-padding untouched; faces are visited by index, in order."""
     table = {FACE: {0: {AX: (None, None)}, 1: {AX: (None, None)}}}
     try:
         outs = run(P, table)
     except Unmodelled as e:
-        ctx.unknown("R05.6", "no links", str(e))
+        ctx.unknown(rule, "no links", str(e))
         return
     bad = None
     for o in outs:
@@ -274,6 +281,6 @@ def _check_open_edges(ctx, P, fi):
             if st.prepad is None or any(s != Sel(0, 1, L) for p, s in st.sel.items() if axis_of_dim(p) == AX):
                 bad = bad or f"face {i}: an unlinked side does not keep the basic pre-padding"
     if bad:
-        ctx.report("R05.6", fi, "faces without links", bad)
+        ctx.report(rule, fi, "faces without links", bad)
     else:
-        ctx.ok("R05.6", "faces without links", "keep the basic pre-padding; faces re-assembled in index order")
+        ctx.ok(rule, "faces without links", "keep the basic pre-padding; faces re-assembled in index order")
